@@ -586,3 +586,38 @@ def rows(S, body, N=None, expand=True, deep=False):
             vp, _ = summary.variant_path(v2)
             out.append(summary.Outcome(vp, v2, allc, o.site, o.fn))
     return out
+
+
+def evaluate(S, body, N, binding, deep=False):
+    """rows of the (expanded, normal-form) decision table of `body` that stay feasible when the terms in `binding` — typically
+    parameters — are replaced by abstract values (aggregates with symbolic leaves); decided conditions are dropped.
+    Evaluating the extracted table on abstract inputs: no code of the repository runs."""
+    out = []
+    for o in rows(S, body, N, expand=True, deep=deep):
+        conds, dead = [], False
+        for t, l, f, w in o.conds:
+            t2 = t
+            for old, new in binding.items():
+                t2 = summary.replace(t2, old, new)
+            r = norm_cond(Normalizer(S.p, S).norm(t2) if False else N.norm(t2), l)
+            if r is None:
+                dead = True
+                break
+            conds += [(a, b, f, w) for a, b in r]
+        if dead or contradictory([(a, b) for a, b, f, w in conds]):
+            continue
+        v = o.value
+        for old, new in binding.items():
+            v = summary.replace(v, old, new)
+        v = N.norm(v)
+        vp, _ = summary.variant_path(v)
+        out.append(summary.Outcome(vp, v, conds, o.site, o.fn))
+    return out
+
+
+def abstract(p, adt_path, **fields):
+    """an aggregate of a workspace struct whose unspecified members are symbolic"""
+    a = p.adts.get(adt_path)
+    names_ = [f["name"] for f in a["variants"][0]["fields"]] if a else list(fields)
+    variant = a["variants"][0]["name"] if a else adt_path.rsplit("::", 1)[-1]
+    return ("agg", adt_path, variant, tuple((f, fields.get(f, ("sym", f))) for f in names_))
